@@ -170,19 +170,34 @@ func (i *pipeInfo) isClosed() bool {
 	return i.closed
 }
 
+// string contents that have to survive the way into the SHIP data envelope and back: escapes, characters Go's encoder
+// treats specially, text that looks like an escape, like the envelope's own member names or like the placeholder
+var pipeStrings = []string{
+	`plain`, `a\"b\\c`, `<tag> & \"more\"`, `\\u0026 is not an ampersand`, `\\u003cb\\u003e`, `\u00e4\u00f6\u20ac`, `äöü€ 漢字`,
+	`{\"place\":\"holder\"}`, `\"payload\":{}`, `datagram`, `tab\there`, `line\nbreak`, `slash\/slash`, `\\`, `\\\\u0041`,
+}
+
 func pipeDatagram(from string, n, pad int, rnd *rand.Rand) []byte {
 	// content that exercises the wire transform a little: nested objects, arrays of objects, numbers, escapes
 	text := strings.Repeat("x", pad)
-	return []byte(fmt.Sprintf(`{"datagram":{"header":{"from":"%s","msgCounter":%d,"ack":%v},"payload":{"cmd":[{"pad":"%s"},{"n":[1,2,%d]},{"t":"a\"b\\c"}]}}}`,
-		from, n, n%2 == 0, text, rnd.Intn(1000)))
+	special := pipeStrings[rnd.Intn(len(pipeStrings))]
+	return []byte(fmt.Sprintf(`{"datagram":{"header":{"from":"%s","msgCounter":%d,"ack":%v},"payload":{"cmd":[{"pad":"%s"},{"n":[1,2,%d]},{"t":"%s"}]}}}`,
+		from, n, n%2 == 0, text, rnd.Intn(1000), special))
 }
 
+// the document as a value (strings compared by content, not by their escapes), re-encoded canonically
 func compactJSON(b []byte) string {
-	var out bytes.Buffer
-	if json.Compact(&out, b) != nil {
-		return string(b)
+	var v any
+	dec := json.NewDecoder(bytes.NewReader(b))
+	dec.UseNumber()
+	if dec.Decode(&v) != nil {
+		return "unparsable:" + string(b)
 	}
-	return out.String()
+	out, err := json.Marshal(v)
+	if err != nil {
+		return "unparsable:" + string(b)
+	}
+	return string(out)
 }
 
 type pipeResult struct {
